@@ -373,6 +373,10 @@ class Exec:
             v = st.env[l.vid]
             if v is None:
                 raise ExtractionError(f'{self.unit}: read of uninitialised local {st.names.get(l.vid)} (line {self.curline})')
+            fl = st.scal.get(f'init:{l.vid}')
+            if fl is not None:
+                # a local that is only conditionally assigned (stream extraction): reading it is defined only if it was
+                self.safe(st, f'uninitialised-read.{st.names.get(l.vid)}', fl.t, f'local {st.names.get(l.vid)} must have been assigned before it is read')
             return v
         if isinstance(l, LScal):
             return st.scal[l.path]
